@@ -167,7 +167,7 @@ impl Frame {
             _ => return Err(FrameError::CobsError),
         }
 
-        if frame.len() < 5 || frame.len() != frame[4] as usize + 5 {
+        if frame.len() < 5 || frame.len() != frame[4] as usize + 5 || frame[4] > 8 {
             return Err(FrameError::WrongSize);
         }
 
